@@ -24,15 +24,9 @@ class Recorder(object):
         self.n = 0
 
 
-def body(chk):
-    w = chk.world()
-    w.models.callback_hook = c15.callback_hook
-    chk.assumptions += ['formula layer of both instantiations is C01-C08 (run on double and long double)',
-                        'type purity as a perturbation model: in the long double slice every value that passes through double (fptrunc x86_fp80->double of a non-representable value) is multiplied by (1+delta), delta free',
-                        'type-relative constant snapping: a long double constant must be the 64-bit rounding of a simple rational (denominator <= 2^20 or <= 12 decimal digits)',
-                        'definedness in the real model: admissibility => every denominator != 0, every sqrt/log/fractional-pow argument in its domain',
-                        'NOT decided: the quantitative bound (small multiple of unit roundoff) on the evaluation error of the compiled code and of glibc libm; overflow; fast-math style compiler flags']
-    chk.bounds = dict(solutions=len(COVERED), note='each evaluator of each covered solution, long double instantiation; arguments and parameters symbolic')
+def long_double_slices(chk, w, names, only=None):
+    """type purity of the long double instantiation of every evaluator (optionally only those whose virtual name starts with `only`)
+    of the given solutions: constants, tolerances, narrowed intermediates (see body() for the assumptions)"""
     ex = w.ex
     rec = Recorder()
 
@@ -54,11 +48,13 @@ def body(chk):
     skipped = []
     for s in sols:
         name = s['name']
-        if name not in COVERED:
+        if name not in names:
             continue
         v = pde.RegView(chk, w, name, scalar)
         for cap in CAPS[name]:
             meth, sig = cap[:-1].split('(')
+            if only is not None and not meth.startswith(only):
+                continue
             cands = [(fn_, api, sg) for fn_, api, sg in apis if A.virtual_of(api) == meth and sg == sig]
             if not cands:
                 continue
@@ -111,6 +107,32 @@ def body(chk):
             else:
                 chk.paths_clean('%s:no-double-precision-intermediate' % tag, [], key='precision:%s:%s:narrowing' % (name, meth), family='type-purity')
     ex.snap_mode = 'lenient'
+    return skipped
+
+
+def add_type_purity(chk, prefixes, only=None):
+    """called at the end of the formula checks C01-C08/C20: the long double instantiation of the evaluators of THEIR solutions may not
+    pass through double (a narrowed intermediate or a double-image constant makes the long double result differ from the formula by far
+    more than its roundoff, i.e. the evaluator no longer returns the value the property describes)"""
+    names = [n for n in COVERED if n.startswith(tuple(prefixes))]
+    w = chk.world()
+    w.models.callback_hook = c15.callback_hook
+    chk.assumptions.append('long double slice of the same evaluators: no double-precision intermediate or double-rounded constant (perturbation model of narrowing, as in C09)')
+    skipped = long_double_slices(chk, w, names, only)
+    if skipped:
+        chk.notes.append('type purity skipped for the path bound: %r' % skipped[:5])
+
+
+def body(chk):
+    w = chk.world()
+    w.models.callback_hook = c15.callback_hook
+    chk.assumptions += ['formula layer of both instantiations is C01-C08 (run on double and long double)',
+                        'type purity as a perturbation model: in the long double slice every value that passes through double (fptrunc x86_fp80->double of a non-representable value) is multiplied by (1+delta), delta free',
+                        'type-relative constant snapping: a long double constant must be the 64-bit rounding of a simple rational (denominator <= 2^20 or <= 12 decimal digits)',
+                        'definedness in the real model: admissibility => every denominator != 0, every sqrt/log/fractional-pow argument in its domain',
+                        'NOT decided: the quantitative bound (small multiple of unit roundoff) on the evaluation error of the compiled code and of glibc libm; overflow; fast-math style compiler flags']
+    chk.bounds = dict(solutions=len(COVERED), note='each evaluator of each covered solution, long double instantiation; arguments and parameters symbolic')
+    skipped = long_double_slices(chk, w, COVERED)
     chk.extra_cov['skipped_for_path_bound'] = skipped
     # ---- 3: pi initialisers use the libm function of the instantiation's type
     calls = []
